@@ -887,7 +887,9 @@ class _Prog:
             return self.step("squeeze", f"{xt}.squeeze({dim})", lambda: x.v.squeeze(dim), x.d.squeeze(dim), [x], pd=x.pd)
         if k == "repeat":
             r = (2, *[R.choice([1, 1, 2]) for _ in b], 1, 1)
-            return self.step("repeat", f"{xt}.repeat{r}", lambda: x.v.repeat(*r), x.d.repeat(*r), [x], pd=x.pd)
+            # repeating an EXISTING batch dim of size > 1 takes a different path in BatchRepeatLinearOperator than adding leading dims
+            nm = "repeat_existing_dim" if any(k_ > 1 and s_ > 1 for k_, s_ in zip(r[1:-2], b)) else "repeat"
+            return self.step(nm, f"{xt}.repeat{r}", lambda: x.v.repeat(*r), x.d.repeat(*r), [x], pd=x.pd)
         if k == "permute":
             pm = list(range(len(b)))
             R.shuffle(pm)
